@@ -13,10 +13,11 @@ import (
 // families below; the identity element is a solver variable.
 //
 // Job parameters: n input length, par worker count, cap producer capacity, mon:
-//   0  a (+) b = a + b - e   with symbolic identity e (commutative monoid for every e)
-//   1  xor, identity 0
+//   0  a (+) b = a ^ b ^ e   with symbolic identity e (commutative monoid for every e;
+//      no carries: cheap for the solver, used for the larger configurations)
+//   1  a (+) b = a + b - e   with symbolic identity e (commutative monoid for every e)
 //   2  bit-wise and, identity all-ones
-//   3  max, identity minimal int
+//   3  max, identity the minimal value of the type
 // The expected value is computed sequentially in the set-up exactly as
 // pipe.Fold does (left fold starting from Empty()). ops counts the
 // applications of the operation: n (one per element, in the workers) + par
@@ -30,13 +31,13 @@ import (
 func v10op[T uint8 | int](e, a, b T) T {
 	switch vrt.Param("mon", 0) {
 	case 1:
-		return a ^ b
+		return a + b - e
 	case 2:
 		return a & b
 	case 3:
 		return vrt.Ite(a < b, b, a)
 	}
-	return a + b - e
+	return a ^ b ^ e
 }
 
 func v10fold[T uint8 | int](conv func(int) T) {
@@ -48,8 +49,6 @@ func v10fold[T uint8 | int](conv func(int) T) {
 	e := conv(vrt.Int("e"))
 	var zero T
 	switch vrt.Param("mon", 0) {
-	case 1:
-		e = zero
 	case 2:
 		e = ^zero
 	case 3:
